@@ -13,7 +13,7 @@ RULE = (
     "multiple incl. more than chunk_ratio blocks so sector-bitmap entries interleave in the BAT, BAT states "
     "{0,1,2,3,6} for a sparse described set, payload blocks at any 1 MiB offsets/permutation/gaps incl. beyond 4 GiB and "
     "4 TiB or in front of the BAT / metadata regions, the last metadata item flush with the end of its region, two headers with arbitrary sequence numbers (the inactive one sometimes invalid or still carrying a LogGuid), regions and metadata items in "
-    "any order, optionally a third, unknown and not-required region entry in any position) plus requests biased to the boundaries of described blocks; an independent writer (MS-VHDX) builds image + "
+    "any order, optionally a third, unknown and not-required region entry in any position, optionally an unknown not-required metadata item (user or system)) plus requests biased to the boundaries of described blocks; an independent writer (MS-VHDX) builds image + "
     "model; VHDX(fh).read / read_sectors must equal the model. Non-trivial = a request starts mid-block and crosses into a "
     "block that is not physically adjacent, or touches a block index >= chunk_ratio."
     ' Creator fields filled to the last unit, cut inside a surrogate pair or holding arbitrary bytes; images also opened through a minimal file object or by a second reader on the same handle after the first was dropped; a second process variant runs with debug logging switched on.'
@@ -106,6 +106,7 @@ def vhdx_spec(draw, tier="quick", layer=0, geometry=None, has_parent=False):
         "meta_order": draw(st.permutations(list(range(5)))), "meta_gap": draw(st.sampled_from([0, 0, 4, 100])),
         "meta_tail": draw(st.sampled_from([False, False, True])), "stale_log_guid": draw(st.sampled_from([False, False, True])),
         "extra_region": draw(st.sampled_from([None, None, None, 0, 1, 2])),
+        "extra_meta": draw(st.sampled_from([None, None, None, None, "user", "user-vd", "system", "system-vd"])),
         "blocks": blocks, "layer": layer, "leave_allocated": draw(st.sampled_from([False, False, True])), "data_end_mb": base + unaligned + (max(slots, default=-1) + 2) * (bmb + pad),
     }
 
